@@ -17,7 +17,7 @@ func init() {
 	fw.Register(&fw.Check{
 		ID:    "C08",
 		Level: "exploration",
-		Rule: "function shapes: all sequences of length<=3 (quick) / 4 (thorough) plus PRNG longer ones over {named/unnamed block start, named/unnamed add, store, fence, void call, non-void call, void/non-void invoke, void/non-void callbr}, crossed with 0-2 named/unnamed parameters, each emitted with all unnamed values numbered explicitly, all implicitly, and mixed; the numbering is computed by the monitor's own model of LLVM's rule and validated by llvm-as on the explicit form. Module shapes: all sequences of length<=3 / 4 plus PRNG longer ones over named/unnamed {global, alias, ifunc, declaration, definition}. For each shape LLVM accepts: the library's parser must accept it, every %N/@N must be bound to the object at the position the model says (each unnamed value is stored to / listed in a sink in definition order), IDs must equal the model's, numbering again must change nothing, String() must not fail, LLVM must accept the printed text and read it as the same module. " +
+		Rule: "function shapes: all sequences of length<=3 (quick) / 4 (thorough) plus PRNG longer ones over {named/unnamed block start, named/unnamed add, store, fence, void call, non-void call, void/non-void invoke, void/non-void callbr, invoke unwinding to an unnamed catchswitch}, crossed with 0-2 named/unnamed parameters, each emitted with all unnamed values numbered explicitly, all implicitly, and mixed; the numbering is computed by the monitor's own model of LLVM's rule and validated by llvm-as on the explicit form. Module shapes: all sequences of length<=3 / 4 plus PRNG longer ones over named/unnamed {global, alias, ifunc, declaration, definition}. For each shape LLVM accepts: the library's parser must accept it, every %N/@N must be bound to the object at the position the model says (each unnamed value is stored to / listed in a sink in definition order), IDs must equal the model's, numbering again must change nothing, String() must not fail, LLVM must accept the printed text and read it as the same module. " +
 			"non-trivial = a shape with at least one unnamed value; distinct by (shape, emission mode)",
 		Gen:           genC08,
 		MinNontrivial: 1000,
@@ -26,11 +26,13 @@ func init() {
 	})
 }
 
-var c08Items = []string{"B", "b", "A", "a", "s", "f", "v", "c", "I", "i", "K", "k"}
+var c08Items = []string{"B", "b", "A", "a", "s", "f", "v", "c", "I", "i", "K", "k", "w"}
 
 // B named block start, b unnamed block start, A named add, a unnamed add, s
 // store, f fence, v void call, c non-void call (unnamed), I void invoke, i
-// non-void invoke (unnamed), K void callbr, k non-void callbr (unnamed).
+// non-void invoke (unnamed), K void callbr, k non-void callbr (unnamed), w an
+// invoke unwinding to an unnamed catchswitch (token result, numbered) with a
+// catchpad handler.
 
 type c08Val struct {
 	kind string // param block inst term
@@ -100,7 +102,7 @@ func c08Func(fname string, params string, shape string, mode int, rng *rand.Rand
 		}
 		started = true
 		cur.items = append(cur.items, it)
-		if it == 'I' || it == 'i' || it == 'K' || it == 'k' {
+		if it == 'I' || it == 'i' || it == 'K' || it == 'k' || it == 'w' {
 			needNew = true
 		}
 	}
@@ -131,6 +133,10 @@ func c08Func(fname string, params string, shape string, mode int, rng *rand.Rand
 		for ii, it := range b.items {
 			switch it {
 			case 'a', 'c', 'i', 'k':
+				numOf[[2]int{bi, ii}] = n2
+				n2++
+			case 'w':
+				// named dispatch block, then the unnamed catchswitch result; the handler block and catchpad are named
 				numOf[[2]int{bi, ii}] = n2
 				n2++
 			}
@@ -212,6 +218,24 @@ func c08Func(fname string, params string, shape string, mode int, rng *rand.Rand
 				}
 				vals = append(vals, c08Val{"term", id, ""})
 				terminated = true
+			case 'w':
+				id := numOf[[2]int{bi, ii}]
+				nameCtr++
+				cs, h := fmt.Sprintf("cs%d", nameCtr), fmt.Sprintf("h%d", nameCtr)
+				fmt.Fprintf(&sb, "  invoke void @vf() to label %s unwind label %%%s\n", nextLabel(), cs)
+				fmt.Fprintf(&sb, "%s:\n", cs)
+				vals = append(vals, c08Val{"block", -1, cs})
+				rhs := fmt.Sprintf("catchswitch within none [label %%%s] unwind to caller", h)
+				if explicit() {
+					fmt.Fprintf(&sb, "  %%%d = %s\n", id, rhs)
+				} else {
+					fmt.Fprintf(&sb, "  %s\n", rhs)
+				}
+				vals = append(vals, c08Val{"term", id, ""})
+				fmt.Fprintf(&sb, "%s:\n  %%cp%d = catchpad within %%%d []\n  catchret from %%cp%d to label %s\n", h, nameCtr, id, nameCtr, nextLabel())
+				vals = append(vals, c08Val{"block", -1, h})
+				vals = append(vals, c08Val{"inst", -1, fmt.Sprintf("cp%d", nameCtr)})
+				terminated = true
 			case 'K':
 				fmt.Fprintf(&sb, "  callbr void asm \"\", \"\"() to label %s []\n", nextLabel())
 				terminated = true
@@ -255,7 +279,7 @@ func genC08(ctx *fw.Ctx) []fw.Case {
 	var cases []fw.Case
 	shapes := c08Shapes(ctx.Pick(3, 4))
 	rng := ctx.Rand("c08shapes")
-	for i := 0; i < ctx.Pick(300, 6000); i++ {
+	for i := 0; i < ctx.Pick(600, 12000); i++ {
 		n := 5 + rng.Intn(12)
 		var sb strings.Builder
 		for k := 0; k < n; k++ {
@@ -274,7 +298,7 @@ func genC08(ctx *fw.Ctx) []fw.Case {
 		cases = append(cases, fw.Case{ID: fmt.Sprintf("funcs/%d", i/per), Run: func(r *fw.Rec) { c08FuncBatch(r, part, i) }})
 	}
 	mshapes := c08ModuleShapes(ctx.Pick(3, 4))
-	for i := 0; i < ctx.Pick(200, 3000); i++ {
+	for i := 0; i < ctx.Pick(400, 6000); i++ {
 		n := 4 + rng.Intn(7)
 		var sb strings.Builder
 		for k := 0; k < n; k++ {
@@ -382,7 +406,7 @@ func c08FuncBatch(r *fw.Rec, shapes []string, base int) {
 		}
 		r.Tally("batches", "functions:"+modeName)
 	}
-	r.Sample(map[string]interface{}{"function_shapes": shapes[:min(4, len(shapes))], "alphabet": "B/b named/unnamed block, A/a add, s store, f fence, v void call, c call, I/i invoke, K/k callbr", "modes": []string{"explicit", "implicit", "mixed"}})
+	r.Sample(map[string]interface{}{"function_shapes": shapes[:min(4, len(shapes))], "alphabet": "B/b named/unnamed block, A/a add, s store, f fence, v void call, c call, I/i invoke, K/k callbr, w invoke+unnamed catchswitch", "modes": []string{"explicit", "implicit", "mixed"}})
 }
 
 // c08CheckFunc compares the parsed function with the model.
@@ -405,6 +429,8 @@ func c08CheckFunc(r *fw.Rec, f *ir.Func, shape, mode string, vals []c08Val, text
 				if !inst.(*ir.InstCall).Type().Equal(f.Sig.RetType) { // non-void (f returns void)
 					objs = append(objs, inst)
 				}
+			case *ir.InstCatchPad:
+				objs = append(objs, inst)
 			}
 		}
 		switch t := b.Term.(type) {
@@ -416,6 +442,8 @@ func c08CheckFunc(r *fw.Rec, f *ir.Func, shape, mode string, vals []c08Val, text
 			if !t.Type().Equal(f.Sig.RetType) {
 				objs = append(objs, t)
 			}
+		case *ir.TermCatchSwitch:
+			objs = append(objs, t)
 		}
 	}
 	key := func(what string) string { return fmt.Sprintf("%s/%s/%s", what, mode, shape) }
